@@ -144,6 +144,12 @@ func c18SingleCase(c *Ctx, p string, mode int, witness string) {
 				break
 			}
 		}
+		// a pattern without metacharacters that Regexp accepts is a sequence of (escaped)
+		// characters: it does match its unescaped text (u is the last probe)
+		if bad == "" && got[len(strs)-1] != '1' && !known {
+			bad = "<nothing: not even its unescaped text " + u + ">"
+			impl = "missing " + hx(u)
+		}
 	} else if got == "panic" {
 		impl = "panic"
 		bad = "<panic>"
@@ -158,7 +164,7 @@ func c18SingleCase(c *Ctx, p string, mode int, witness string) {
 		if w == "" {
 			w = fmt.Sprintf("single %d %s", mode, hx(p))
 		}
-		c.Fail(w, fmt.Sprintf("HasMeta(%q) is false but under mode %d the pattern also matches %q (unescaped text is %q)", p, mode, bad, u))
+		c.Fail(w, fmt.Sprintf("HasMeta(%q) is false but under mode %d the pattern matches %q (it must match exactly its unescaped text %q)", p, mode, bad, u))
 	}
 }
 
@@ -297,6 +303,38 @@ func c18(c *Ctx) {
 		}
 	}
 	rec("", 0)
+
+	// the second half of the property, exhaustively: every pattern over the alphabet of HasMeta
+	// ([ ] \ * ? a é) up to length 4 (thorough: 5) that HasMeta calls metacharacter-free — unmatched
+	// brackets followed by escapes (`[\*`, `[a\]`, `[\\`, `a[b\?c`) included — must match exactly its
+	// unescaped text, under every mode without (and with) extended operators
+	singleAlpha := []string{"[", "]", "\\", "*", "?", "a", "é"}
+	singleMax := 4
+	if c.Thorough() {
+		singleMax = 5
+	}
+	sidx := 0
+	var srec func(prefix string, l int)
+	srec = func(prefix string, l int) {
+		sidx++
+		if c.Shards <= 1 || sidx%c.Shards == c.Shard {
+			if !pattern.HasMeta(prefix, 0) {
+				for _, mode := range c18Modes {
+					if l <= 3 || mode&l3Ext == 0 {
+						c18SingleCase(c, prefix, mode, "")
+					}
+				}
+				c.Case("single:"+prefix, strings.ContainsAny(prefix, "[\\"), "single-exhaustive")
+			}
+		}
+		if l == singleMax {
+			return
+		}
+		for _, a := range singleAlpha {
+			srec(prefix+a, l+1)
+		}
+	}
+	srec("", 0)
 	long := append([]string{".", "/", "A", " ", "\n", "{", "}", "$", "'", "\"", ":", "=", "é", "日本", "😀"}, c18Alphabet...)
 	for i := 0; i < c.N; i++ {
 		s := genFrom(c.R, long, 12)
